@@ -1,4 +1,4 @@
 SPECIFICATION Spec
-INVARIANTS InjectedIsExternal OtherwiseNormal CompleteOrError
+INVARIANTS CompleteOrError
 POSTCONDITION TraceAccepted
 CHECK_DEADLOCK FALSE
